@@ -166,3 +166,20 @@ def random_ssa_path(rng, n):
 
 def index_space(size_dict):
     return math.prod(size_dict.values()) if size_dict else 1
+
+
+def is_connected(inputs):
+    """True if the tensors form one connected component (sharing indices)."""
+    n = len(inputs)
+    if n <= 1:
+        return True
+    seen = {0}
+    stack = [0]
+    sets = [set(t) for t in inputs]
+    while stack:
+        i = stack.pop()
+        for j in range(n):
+            if j not in seen and sets[i] & sets[j]:
+                seen.add(j)
+                stack.append(j)
+    return len(seen) == n
